@@ -220,7 +220,8 @@ class Retime(Contract):
         }
 
 
-CONTRACTS += [Retime()] + [FillNegatives(n) for n in (1, 2, 3, 4)]
+import os as _os
+CONTRACTS += [Retime()] + [FillNegatives(n) for n in ((1, 2, 3, 4, 5) if _os.environ.get("VERIF_TIER") == "thorough" else (1, 2, 3, 4))]
 TRUSTED += [
     "Parameters.fill_negatives_with_positives enters its caller's proof through its contract (sum preserved, "
     "entries keep their sign and only move towards zero, all entries >= 0 when the total is >= 0); that contract "
